@@ -36,6 +36,11 @@ pub fn install_panic_hook() {
     }));
 }
 
+/// panics that stem from the sandbox running out of threads / address space
+pub fn is_env_failure(msg: &str) -> bool {
+    msg.contains("Resource temporarily unavailable") || msg.contains("could not build thread pool") || msg.contains("WouldBlock") || msg.contains("failed to spawn thread") || msg.contains("Cannot allocate memory")
+}
+
 pub fn take_panic() -> (String, String) {
     LAST_PANIC
         .lock()
@@ -125,11 +130,18 @@ impl Ctx {
             let (loc, msg) = take_panic();
             let site = short_site(&loc);
             let first = msg.lines().next().unwrap_or("").to_string();
-            self.viol(
-                attrs(&[("panic", "1"), ("site", &site), ("group_label", label)]),
-                json!({"group_label": label}),
-                &format!("panic at {site}: {first}"),
-            );
+            if is_env_failure(&msg) {
+                // resource exhaustion of the sandbox (threads / address space), not a verdict
+                let mut out = std::io::stdout().lock();
+                let _ = writeln!(out, "M environment failure in group {n} '{label}' at {site}: {first}");
+                let _ = out.flush();
+            } else {
+                self.viol(
+                    attrs(&[("panic", "1"), ("site", &site)]),
+                    json!({"group_label": label}),
+                    &format!("panic at {site} in group '{label}': {first}"),
+                );
+            }
         }
         self.active = false;
         let mut out = std::io::stdout().lock();
@@ -151,6 +163,12 @@ impl Ctx {
                 let (loc, msg) = take_panic();
                 let site = short_site(&loc);
                 let first = msg.lines().next().unwrap_or("").to_string();
+                if is_env_failure(&msg) {
+                    let mut out = std::io::stdout().lock();
+                    let _ = writeln!(out, "M environment failure at {site}: {first}");
+                    let _ = out.flush();
+                    return None;
+                }
                 let mut a = base_attrs.clone();
                 a.insert("panic".into(), "1".into());
                 a.insert("site".into(), site.clone());
